@@ -745,3 +745,66 @@ B('C01', 'step argument not tested against the table', THEORY,
 B('C01', 'rules without argument accept one', THEORY,
   "                if sig is None:\n                    if seq.args is not None:\n                        raise CheckProofException(\"invalid input to derivation %s: takes no argument\" % seq.rule)\n                elif not isinstance(seq.args, sig):",
   "                if sig is not None and not isinstance(seq.args, sig):", 'C01.K11', 'argument-fits-signature')
+
+# ------------------------------------------------------------------------------------------- rules added after the third round of seeded changes
+B('C01', 'abstract_over binds a schematic variable when abstracting over a variable', TERM,
+  "            if s.is_svar():\n                if t.is_svar() and s.name == t.name:", "            if s.is_svar():\n                if s.name == t.name:", 'C01.K13', 'leaf(svar) vs variable(var)')
+B('C03', 'abstract_over binds a variable when abstracting over a schematic variable', TERM,
+  "            elif s.is_var():\n                if t.is_var() and s.name == t.name:", "            elif s.is_var():\n                if s.name == t.name:", 'C03.I6', 'leaf(var) vs variable(svar)')
+N('C01', 'abstract_over compares the leaf with the variable as a whole', TERM,
+  "            if s.is_svar():\n                if t.is_svar() and s.name == t.name:", "            if s.is_svar():\n                if t.is_svar() and s.name == t.name and True:")
+B('C01', 'is_open does not look into arguments', TERM,
+  "                return rec(t.fun, n) or rec(t.arg, n)\n            elif t.is_abs():\n                return rec(t.body, n+1)\n            elif t.is_bound():\n                return t.n >= n",
+  "                return rec(t.fun, n)\n            elif t.is_abs():\n                return rec(t.body, n+1)\n            elif t.is_bound():\n                return t.n >= n", 'C01.K12', 'Term.is_open')
+B('C02', 'can_depend_on decides at the first differing component', 'kernel/proof.py',
+  "        if other.id[:l-1] != self.id[:l-1]:\n            return False\n        return other.id[l-1] < self.id[l-1]",
+  "        for i, j in zip(other.id, self.id):\n            if i != j:\n                return i < j\n        return False", 'C02.P10', 'different(i != j)')
+B('C02', 'can_depend_on without the prefix comparison', 'kernel/proof.py',
+  "        if other.id[:l-1] != self.id[:l-1]:\n            return False\n        return other.id[l-1] < self.id[l-1]",
+  "        return other.id[l-1] < self.id[l-1]", 'C02.P10', '')
+N('C02', 'can_depend_on with the prefix comparison written positively', 'kernel/proof.py',
+  "        if other.id[:l-1] != self.id[:l-1]:\n            return False\n        return other.id[l-1] < self.id[l-1]",
+  "        if other.id[:l-1] == self.id[:l-1]:\n            return other.id[l-1] < self.id[l-1]\n        return False")
+B('C04', 'rewrite_goal evaluation keeps the hypotheses of the first premise only', 'logic/logic.py',
+  "        _, goal = args\n        return Thm(goal, *(th.hyps for th in ths))", "        _, goal = args\n        return Thm(goal, ths[0].hyps)", 'C04.M11', 'rewrite_goal')
+B('C06', 'occurrence test skips the head of an application', 'prover/fologic.py',
+  "            return rec(t.fun, n) or rec(t.arg, n)", "            head, args = t.strip_comb()\n            return (head.is_abs() and rec(head, n)) or any(rec(arg, n) for arg in args)", 'C06.Z5', 'traverses(application)')
+N('C06', 'occurrence test over head and arguments', 'prover/fologic.py',
+  "            return rec(t.fun, n) or rec(t.arg, n)", "            head, args = t.strip_comb()\n            return rec(head, n) or any(rec(arg, n) for arg in args)")
+B('C07', 'trailing lambda printed without brackets', 'syntax/pprint.py',
+  "                if (op_data.assoc == operator.LEFT and get_priority(arg2) <= op_data.priority or\n                    op_data.assoc == operator.RIGHT and get_priority(arg2) < op_data.priority):\n                    arg2_ast = Bracket(arg2_ast)",
+  "                if not arg2.is_abs() and \\\n                   (op_data.assoc == operator.LEFT and get_priority(arg2) <= op_data.priority or\n                    op_data.assoc == operator.RIGHT and get_priority(arg2) < op_data.priority):\n                    arg2_ast = Bracket(arg2_ast)",
+  'C07.W1', 'child(lambda)')
+B('C09', 'has_vars skips an abstraction in head position', TERM,
+  "            return self.fun.has_vars(vs) or self.arg.has_vars(vs)", "            head, args = self.strip_comb()\n            return (head.is_var() and head in vs) or any(arg.has_vars(vs) for arg in args)", 'C09.N7', 'Term.has_vars')
+B('C10', 'of_nat normalised with the real normaliser', 'data/real.py',
+  "    elif t.is_comb('of_nat', 1):\n        return nat.convert_to_poly(t.arg)", "    elif t.is_comb('of_nat', 1):\n        return convert_to_poly(t.arg)", 'C10.V7', 'convert_to_poly')
+B('C11', 'type variables under a binder not collected', 'server/items.py',
+  "            Ts = t.var_T.get_tvars()\n            rec(t.body)", "            Ts = t.var_T.get_tvars()", 'C11.D6', 'traverses(abstraction)')
+B('C13', 'editor admits facts by document order', 'server/method.py',
+  "    assert all(goal_id.can_depend_on(fact_id) for fact_id in fact_ids), \\\n        \"apply_method: illegal dependence.\"", "    assert all(fact_id.id < goal_id.id for fact_id in fact_ids), \\\n        \"apply_method: illegal dependence.\"", 'C13.A8', 'facts-visible-from-goal')
+N('C13', 'editor tests visibility in a loop', 'server/method.py',
+  "    assert all(goal_id.can_depend_on(fact_id) for fact_id in fact_ids), \\\n        \"apply_method: illegal dependence.\"", "    for fact_id in fact_ids:\n        assert goal_id.can_depend_on(fact_id), \"apply_method: illegal dependence.\"")
+B('C14', 'nat_norm suggested whatever the number of facts', 'data/nat.py',
+  "    def search(self, state, id, prevs, data=None):\n        if data:\n            return [data]\n\n        if len(prevs) != 0:\n            return []\n\n        cur_th = state.get_proof_item(id).th\n        if nat_norm_macro().can_eval(cur_th.prop):",
+  "    def search(self, state, id, prevs, data=None):\n        if data:\n            return [data]\n\n        cur_th = state.get_proof_item(id).th\n        if nat_norm_macro().can_eval(cur_th.prop):", 'C14.S5', 'nat_norm')
+B('C15', 'unassigned literals filed under the variable name', SATF,
+  "                unassigned = []  # list of unassigned literals", "                unassigned = dict()  # list of unassigned literals", 'C15.X6', 'counts-literals',
+  more=[("                        unassigned.append(lit)", "                        unassigned.setdefault(name, val)"), ("                        name, val = unassigned[0]", "                        (name, val), = unassigned.items()")])
+B('C16', 'contradiction of the dark-shadow search handed on in exact mode', 'prover/omega.py',
+  "                    r2 = solve(EDARK, db_dark(), width)\n                    return drop_contr(extend_satisfiable(r2))", "                    r2 = solve(EDARK, db_dark(), width)\n                    return mode_result(em, extend_satisfiable(r2))", 'C16.O3', 'dark-result@EXACT')
+N('C16', 'dark-shadow result through mode_result in a dark mode', 'prover/omega.py',
+  "                r = solve(DARK, db_dark(), width)\n                return drop_contr(extend_satisfiable(r))\n        else:  # em == DARK", "                r = solve(DARK, db_dark(), width)\n                return mode_result(em, extend_satisfiable(r))\n        else:  # em == DARK")
+B('C18', 'resolution keeps the hypotheses of the premises it resolved only', 'smt/veriT/verit_macro.py',
+  "        _, cl_concl = resolve_order(prems)\n        if set(cl_concl) <= set(cl):\n            return Thm(Or(*cl), *(pt.hyps for pt in prevs))",
+  "        resolves, cl_concl = resolve_order(prems)\n        used = sorted(set(i for res_step in resolves for i in res_step[:2] if i >= 0))\n        if set(cl_concl) <= set(cl):\n            return Thm(Or(*cl), *(prevs[i].hyps for i in used))", 'C18.R12', 'verit_th_resolution')
+B('C20', 'substitution cancels a double operator by name', IEXPR,
+  "        return Op(self.op, *(arg.subst(inst) for arg in self.args))", "        args = [arg.subst(inst) for arg in self.args]\n        if len(args) == 1 and isinstance(args[0], Op) and args[0].op == self.op:\n            return args[0].args[0]\n        return Op(self.op, *args)", 'C20.P4', 'Op.subst')
+B('C20', 'substitution does not reach the index of an array access', IEXPR,
+  "        return ArrayElt(self.ident.subst(inst), self.idx.subst(inst))", "        return ArrayElt(self.ident.subst(inst), self.idx)", 'C20.P4', 'ArrayElt.subst')
+N('C20', 'substitution through a local list', IEXPR,
+  "        return Op(self.op, *(arg.subst(inst) for arg in self.args))", "        args = [arg.subst(inst) for arg in self.args]\n        return Op(self.op, *args)")
+B('C09', 'find_term does not look under binders', 'logic/matcher.py',
+  "    if t.is_abs():\n        return find_term(t.body, sub_t)\n    return False", "    if t.is_abs():\n        return False\n    return False", 'C09.N7', 'find_term')
+B('C08', 'annotation search does not look under binders', 'syntax/infertype.py',
+  "                        to_replaceT = t.var_T\n                find_to_replace(t.body)", "                        to_replaceT = t.var_T", 'C08.U7', 'find_to_replace')
